@@ -68,13 +68,17 @@ def weights(rng, n):
     return [rng.randint(1, 16) / 8.0 for _ in range(n)]
 
 
-def attr_matrix(rng, A, symmetric=True, cubes=False):
+def attr_matrix(rng, A, symmetric=True, cubes=False, signed=False):
+    """link attribute values on the links of A (signed: also negative values,
+    e.g. correlations used as link weights)"""
     n = len(A)
     W = np.zeros((n, n))
     for i in range(n):
         for j in range(n):
             if A[i, j] and (not symmetric or j <= i or not A[j, i]):
                 k = rng.randint(1, 4)
+                if signed and rng.random() < 0.5:
+                    k = -k
                 W[i, j] = (k ** 3 / 8.0) if cubes else k / 4.0
                 if symmetric and A[j, i]:
                     W[j, i] = W[i, j]
